@@ -120,6 +120,18 @@ def run_sup(req):
         opf.subgraph = Subgraph(X, Y, I=I)
         opf._find_prototypes()
     else:
+        hist = cfg.get("hist", 0)
+        if hist:
+            N = n + nu + nq
+            X0, Y0, I0 = _data(branch, hist, [i % 2 for i in range(hist)], offset=N)
+            if semi:
+                Xu0, _, _ = _data(branch, 1, None, offset=N + hist)
+                opf.fit(X0, Y0, Xu0, I0)
+            else:
+                opf.fit(X0, Y0, I0)
+            Xq0, _, Iq0 = _data(branch, 1, None, offset=n + nu)
+            opf.predict(Xq0, Iq0)
+            W = [r[:N] for r in W[:N]]
         if semi:
             Xu, _, _ = _data(branch, nu, None, offset=n)
             opf.fit(X, Y, Xu, I)
